@@ -211,8 +211,12 @@ def uncovered(changed, hits, repo, minimum=1):
         want = c['lines'] or [c['entry']]
         miss = [l for l in want if h.get(l, 0) < minimum]
         called = any(h.get(l, 0) for l in range(c['lo'], c['hi'] + 1))
-        if c.get('new') and not called:
+        last = c['qualname'].rsplit('.', 1)[-1].split('#')[0]
+        dunder = last.startswith('__') and last.endswith('__')
+        if c.get('new') and not called and not dunder:
             continue                              # a new function nobody calls: dead code, not part of any slice
+        # (a new special method is different: it is called implicitly -- ==, hash(), str(), <, len(), copy -- wherever an instance
+        #  of the class meets one of the existing call sites; when no generated case gets there, the comparison says nothing about it)
         if miss:
             out.append({'file': c['file'], 'function': c['qualname'], 'lines_not_executed': miss,
                         'function_called': called})
